@@ -1,7 +1,14 @@
 // Package fw provides fault-injecting writers.
 package fw
 
-import "errors"
+import (
+	"context"
+	"errors"
+	"io"
+	"net"
+	"os"
+	"syscall"
+)
 
 // ErrInjected is returned by FailAt once its quota is used up.
 var ErrInjected = errors.New("injected write failure")
@@ -13,6 +20,15 @@ type FailAt struct {
 	Got    []byte
 	Writes int
 	Failed bool
+	// Err is the error to fail with (nil = ErrInjected); see ErrKinds.
+	Err error
+}
+
+func (w *FailAt) fail() error {
+	if w.Err != nil {
+		return w.Err
+	}
+	return ErrInjected
 }
 
 func (w *FailAt) Write(p []byte) (int, error) {
@@ -20,7 +36,7 @@ func (w *FailAt) Write(p []byte) (int, error) {
 	room := w.K - len(w.Got)
 	if room <= 0 {
 		w.Failed = true
-		return 0, ErrInjected
+		return 0, w.fail()
 	}
 	if len(p) <= room {
 		w.Got = append(w.Got, p...)
@@ -28,7 +44,36 @@ func (w *FailAt) Write(p []byte) (int, error) {
 	}
 	w.Got = append(w.Got, p[:room]...)
 	w.Failed = true
-	return room, ErrInjected
+	return room, w.fail()
+}
+
+// ErrKinds are the identities a failing destination can report: an ordinary error, and the
+// ones a vanished peer produces (closed pipe, EPIPE, ECONNRESET, bare and wrapped the way the
+// net and os packages wrap them), plus io.EOF / io.ErrShortWrite, which code sometimes treats
+// as "not really an error".
+var ErrKinds = []string{"", "closedpipe", "epipe", "econnreset", "epipe-wrapped", "econnreset-wrapped", "eof", "shortwrite", "canceled"}
+
+// ErrOf returns the error for a kind of ErrKinds.
+func ErrOf(kind string) error {
+	switch kind {
+	case "closedpipe":
+		return io.ErrClosedPipe
+	case "epipe":
+		return syscall.EPIPE
+	case "econnreset":
+		return syscall.ECONNRESET
+	case "epipe-wrapped":
+		return &os.SyscallError{Syscall: "write", Err: syscall.EPIPE}
+	case "econnreset-wrapped":
+		return &net.OpError{Op: "write", Net: "tcp", Err: &os.SyscallError{Syscall: "write", Err: syscall.ECONNRESET}}
+	case "eof":
+		return io.EOF
+	case "shortwrite":
+		return io.ErrShortWrite
+	case "canceled":
+		return context.Canceled
+	}
+	return ErrInjected
 }
 
 // Sentinel is the panic value of Budget.
